@@ -604,7 +604,7 @@ pub fn gen_scenario_full(seed: u64, idx: usize, big: bool, big_stderr: bool, hug
             let stderr = if st >= 2 { "error: Could not access 'x'\n" } else { "" };
             stderr_may = st >= 2;
             let gv = (*rng.pick(&["git version 2.45.1", "git version 2.39.5", "git version 2.42.0", "git version 2.30.1 (Apple Git-130)"])).to_string();
-            spec.child = Some(ChildSetup { names: vec!["git".into(), "diff".into()], stdout: out.into(), stderr: stderr.into(), stderr_first: rng.chance(1, 2), exit: st, git_version: gv });
+            spec.child = Some(ChildSetup { names: vec!["git".into(), "diff".into()], stdout: out.into(), stderr: stderr.into(), stderr_first: rng.chance(1, 2), exit: st, git_version: gv, linger_ms: 0 });
         }
         "wrapped" => {
             let cmds: &[(&str, &[&str])] = &[
@@ -672,7 +672,7 @@ pub fn gen_scenario_full(seed: u64, idx: usize, big: bool, big_stderr: bool, hug
                 sub = format!("{}-latin1stderr", sub);
             }
             stderr_may = true;
-            spec.child = Some(ChildSetup { names: vec!["git".into(), "rg".into()], stdout: out.into(), stderr: stderr.into(), stderr_first: rng.chance(1, 2), exit: st, git_version: "git version 2.45.1".into() });
+            spec.child = Some(ChildSetup { names: vec!["git".into(), "rg".into()], stdout: out.into(), stderr: stderr.into(), stderr_first: rng.chance(1, 2), exit: st, git_version: "git version 2.45.1".into(), linger_ms: 0 });
         }
         _ => {
             let flags: &[&str] = &["--show-config", "--version", "--help", "--show-colors", "--list-languages", "--list-syntax-themes", "--show-syntax-themes", "--parse-ansi", "--generate-completion"];
@@ -900,10 +900,21 @@ pub fn main_c18(env: &Env, tier: &str, seed: u64, replay: Option<&str>) -> i32 {
                 // X2: a paged run delivers exactly what `--paging never` prints
                 if s.kind != "oneshot" && s.paging != "never" && !r.timed_out {
                     let mut never = s.clone();
+                    let mut given = false;
                     for i in 0..never.spec.args.len() {
                         if never.spec.args[i] == "--paging" {
                             never.spec.args[i + 1] = "never".into();
+                            given = true;
+                        } else if never.spec.args[i].starts_with("--paging=") {
+                            never.spec.args[i] = "--paging=never".into();
+                            given = true;
                         }
+                    }
+                    // a scenario that leaves the decision to delta (no --paging at all): the comparison
+                    // run gets the option in front (used to be compared with a second paged run, whose
+                    // stdout is empty - noted as "did not reproduce" nine times per run, never reported)
+                    if !given {
+                        never.spec.args.insert(0, "--paging=never".into());
                     }
                     if let Ok(r2) = run(env, &apply(&never, &none), &ctx.dir.join("run"), false) {
                         // a comparison run that itself went wrong (killed, other status) proves nothing
@@ -1287,11 +1298,31 @@ pub fn explicit_cells(seed: u64) -> Vec<Scenario> {
                 spec.args.extend(opts.iter().map(|x| x.to_string()));
                 spec.args.extend(cmd.iter().map(|x| x.to_string()));
                 let outp: Vec<u8> = if cmd[0] == "rg" { Vec::new() } else { diff.clone() };
-                spec.child = Some(ChildSetup { names: vec!["git".into(), "rg".into()], stdout: outp.into(), stderr: Blob::default(), stderr_first: false, exit: st, git_version: "git version 2.45.1".into() });
+                spec.child = Some(ChildSetup { names: vec!["git".into(), "rg".into()], stdout: outp.into(), stderr: Blob::default(), stderr_first: false, exit: st, git_version: "git version 2.45.1".into(), linger_ms: 0 });
                 spec.pager = Some(pg(0));
                 let paging = if sclass == "none" { "auto" } else { "never" };
                 let m = if sclass == "none" { Some(pager_model(None, None, None, None, None)) } else { None };
                 out.push(Scenario { name: format!("cell-wrapped-{}-{}-{}", cclass, sclass, st), kind: "wrapped".into(), sub: format!("spelling-{}-{}", cclass, sclass), spec, paging: paging.into(), expect_exit: st, tokens: if cmd[0] == "rg" { vec![] } else { tokens.clone() }, pager_model: m, stderr_may_be_nonempty: false, check_selection: sclass == "none", light: true });
+            }
+        }
+    }
+    // G. a wrapped command that closes its output and keeps running (a producer with clean-up work,
+    //    `git log` waiting for a hook): its status exists only once it has ended, so delta must wait
+    //    for the command itself, not for the end of its output - with and without a pager, and with
+    //    the reader gone at the first write
+    for (cclass, cmd) in [("git-diff", vec!["git", "diff"]), ("git-show", vec!["git", "show"]), ("rg", vec!["rg", "needle"])] {
+        for paging in ["never", "always"] {
+            for st in [0i32, 1, 3, 1000 + 15] {
+                let mut spec = RunSpec::default();
+                spec.plan = Plan::basic(mix(seed, &[tag("cellhash-linger"), out.len() as u64]));
+                spec.args = vec!["--no-gitconfig".into(), "--paging".into(), paging.into(), "--width".into(), "100".into()];
+                spec.args.extend(cmd.iter().map(|x| x.to_string()));
+                let outp: Vec<u8> = if cmd[0] == "rg" { Vec::new() } else { diff.clone() };
+                spec.child = Some(ChildSetup { names: vec!["git".into(), "rg".into()], stdout: outp.into(), stderr: Blob::default(), stderr_first: false, exit: st, git_version: "git version 2.45.1".into(), linger_ms: 300 });
+                spec.pager = Some(pg(0));
+                let m = if paging == "always" { Some(pager_model(None, None, None, None, None)) } else { None };
+                let sub = if st >= 1000 { format!("lingers-{}-killed", cclass) } else { format!("lingers-{}", cclass) };
+                out.push(Scenario { name: format!("cell-wrapped-lingers-{}-{}-{}", cclass, paging, st), kind: "wrapped".into(), sub, spec, paging: paging.into(), expect_exit: if st >= 1000 { ANY_EXIT } else { st }, tokens: if cmd[0] == "rg" { vec![] } else { tokens.clone() }, pager_model: m, stderr_may_be_nonempty: st >= 1000, check_selection: false, light: true });
             }
         }
     }
@@ -1366,7 +1397,7 @@ pub fn explicit_cells(seed: u64) -> Vec<Scenario> {
                 spec.files = vec![("a.txt".into(), Blob::from("one\n")), ("b.txt".into(), Blob::from("two\n")), ("da/f.txt".into(), Blob::from("one\n")), ("db/f.txt".into(), Blob::from("two\n")), ("git".into(), Blob::from("a file named git\n")), ("rg".into(), Blob::from("a file named rg\n")), ("diff".into(), Blob::from("a file named diff\n"))];
                 let outp = if st == 1 { diff.clone() } else { Vec::new() };
                 let stderr = if st >= 2 { "error: Could not access 'x'\n" } else { "" };
-                spec.child = Some(ChildSetup { names: vec!["git".into(), "diff".into()], stdout: outp.into(), stderr: stderr.into(), stderr_first: false, exit: st, git_version: gv.into() });
+                spec.child = Some(ChildSetup { names: vec!["git".into(), "diff".into()], stdout: outp.into(), stderr: stderr.into(), stderr_first: false, exit: st, git_version: gv.into(), linger_ms: 0 });
                 spec.pager = Some(pg(0));
                 out.push(Scenario { name: format!("cell-diff2-{}-{}-{}", oclass, gv.replace(' ', "_"), st), kind: "diff2".into(), sub: format!("ops-{}-status{}", oclass, st), spec, paging: "never".into(), expect_exit: st, tokens: if st == 1 { tokens.clone() } else { vec![] }, pager_model: None, stderr_may_be_nonempty: st >= 2, check_selection: false, light: true });
             }
@@ -1388,7 +1419,7 @@ pub fn explicit_cells(seed: u64) -> Vec<Scenario> {
                     k += 1;
                 }
                 let outp = if st == 1 { diff.clone() } else { Vec::new() };
-                spec.child = Some(ChildSetup { names: vec!["git".into(), "diff".into()], stdout: outp.into(), stderr: warn.into(), stderr_first, exit: st, git_version: "git version 2.45.1".into() });
+                spec.child = Some(ChildSetup { names: vec!["git".into(), "diff".into()], stdout: outp.into(), stderr: warn.into(), stderr_first, exit: st, git_version: "git version 2.45.1".into(), linger_ms: 0 });
                 spec.pager = Some(pg(0));
                 out.push(Scenario { name: format!("cell-diff2-warnings-{}-{}-{}", st, lclass, stderr_first), kind: "diff2".into(), sub: format!("warnings-{}-status{}", lclass, st), spec, paging: "never".into(), expect_exit: st, tokens: if st == 1 { tokens.clone() } else { vec![] }, pager_model: None, stderr_may_be_nonempty: true, check_selection: false, light: true });
             }
